@@ -180,6 +180,12 @@ func c11Slots() []c11Slot {
 		exprSlot("object literal element", true, func(e Expr) Expr {
 			return &ObjLit{Keys: []string{"a", "b", "c"}, Vals: []Expr{CallE(V("tr")), e, CallE(V("tr"))}}
 		}),
+		exprSlot("object literal value whose key is written again later", true, func(e Expr) Expr {
+			return &ObjLit{Keys: []string{"a", "b", "a"}, Vals: []Expr{e, CallE(V("tr")), N("2")}}
+		}),
+		exprSlot("object literal value of a key written before", true, func(e Expr) Expr {
+			return &ObjLit{Keys: []string{"a", "a"}, Vals: []Expr{CallE(V("tr")), e}}
+		}),
 		exprSlot("middle call argument", true, func(e Expr) Expr { return CallE(V("idf"), Arr_(CallE(V("tr")), e, CallE(V("tr")))) }),
 		exprSlot("left of a traced operand", true, func(e Expr) Expr { return Bin("+", e, CallE(V("tr"))) }),
 		exprSlot("right of a traced operand", true, func(e Expr) Expr { return Bin("+", CallE(V("tr")), e) }),
